@@ -1,4 +1,5 @@
 mod cfgbuild;
+mod configfile;
 mod console;
 mod envexpand;
 mod fanout;
@@ -28,6 +29,7 @@ fn main() {
         "routing" => routing::main(rest),
         "cfgbuild" => cfgbuild::main(rest),
         "fanout" => fanout::main(rest),
+        "configfile" => configfile::main(rest),
         "timetrig" => timetrig::main(rest),
         "console" => console::main(rest),
         "console-child" => console::child(rest),
